@@ -133,11 +133,11 @@ pub fn run_c10(case: &Case) -> Outcome {
             // in whatever state the interruption found it in)
             let op = if after_interrupt && r.gen_bool(0.4) { 0 } else { r.gen_range(0..9) };
             after_interrupt = false;
-            // a quarter of the solves is interrupted: a third of those at poll 0-5, a third at a poll drawn
-            // log-uniformly up to ~360 (so that interruptions also land after conflicts), a third at the first
+            // a third of the solves is interrupted: a quarter of those at poll 0-5, a quarter at a poll drawn
+            // log-uniformly up to ~360 (so that interruptions also land after conflicts), half at the first
             // poll after the j-th nogood learned by that solve (j = 1..3; never, if it learns fewer)
-            let fire_at: Option<(u8, u64)> = if r.gen_range(0..4) == 0 {
-                Some(match r.gen_range(0..3) {
+            let fire_at: Option<(u8, u64)> = if r.gen_range(0..3) == 0 {
+                Some(match r.gen_range(0..4) {
                     0 => (0, r.gen_range(0..6)),
                     1 => (0, 2f64.powf(r.gen_range(0.0..8.5)) as u64),
                     _ => (1, r.gen_range(1..=3)),
